@@ -93,6 +93,21 @@ def cases(rng, quick, gr):
     for e in ["3000000001 * 3000000001 - 9000000006000000000", "big3 * big3 - 9000000006000000000", "BI[0] * BI[1] + 1 - 9000000006000000001",
               "2147483648 * 4294967295 - 9223372032559808511", "-3037000499 * 3037000499 + 9223372030926249001"]:
         yield {"tag": "int-product-near-2^63", "text": HDR + DECLS + "int big3 = 3000000001\nint array BI =\n    3000000001, 3000000001\nOp(%s, 1 + (%s)) | 0\n" % (e, e)}
+    # (4c) declared variables whose NAMES read like numbers to Python / NumPy / SymPy (inf, nan, j, E, I, oo, ...): a name is a
+    #      variable reference wherever it stands - alone, under a sign, in lists, in options, in array rows and in loops
+    NUMLIKE = ["inf", "nan", "NaN", "Infinity", "infinity", "INF", "j", "J", "infj", "nanj", "e", "E", "e1", "I", "oo", "zoo", "S", "N", "O", "Q",
+               "None", "nil", "x1e5", "d", "f", "L", "l", "_1" if False else "b1", "Inf", "NAN", "E1", "inf_", "pi2", "Pi", "PI", "tau"]
+    for k in range(8 if quick else 40):
+        nms = rng.sample(NUMLIKE, 4)
+        vals = ["0.25", "1.5", "3", "2-1j"]
+        tys = ["float", "float", "int", "complex"]
+        decl = "".join("%s %s = %s\n" % (t, nm, v) for t, nm, v in zip(tys, nms, vals))
+        a, b, c, d = nms
+        yield {"tag": "number-like-names", "text": "name e\nversion 1.0\n" + decl +
+               "Op(%s, -%s, +%s, %s, -%s, 2*%s, %s) | %s\nOp(x=%s, y=-%s, l=[%s, %s, -%s], z=%s) | 0\n"
+               "float array FA =\n    %s, %s\n    -%s, %s\ncomplex array CA =\n    %s, %s, -%s\nOp(FA[0], FA[1], FA[2], FA[3], CA[0], CA[1], CA[2]) | 1\n"
+               "float s = %s\ncomplex t = -%s\nOp(s, t) | 0\nfor float w in [%s, %s, 0.5]\n    Op(w, %s) | 0\n"
+               % (a, a, b, d, d, a, c, c, a, b, a, b, b, d, a, b, a, c, d, a, d, a, d, a, b, b)}
     # (5) row-major indexing with computed indices
     for k in range(6):
         yield {"tag": "index", "text": HDR + DECLS + "Op(A[%d], A[%d+0], A[n-3+%d], F[%d]) | A[%d]\n" % (k, k, k, k % 4, k)}
